@@ -117,10 +117,11 @@ def run(ctx):
         runs.append(a)
     check_runs(ctx, binary, runs, "random")
     # a failed thread creation (the pthread model refuses the pool's first attempt): the pool must not count the missing worker,
-    # the calls started afterwards get a worker and everything runs (at least two calls, or nothing could recover)
+    # the calls started afterwards get a worker and everything runs (client 1, whose first start meets the failure, always makes a
+    # second call after it: with one call per client both starts can be over before the failure is known, and nothing recovers)
     check_runs(ctx, binary, [["clients=%d" % cl, "futs=%d" % fu, "poolmax=%d" % pm, "poolcap=4", "mode=%d" % md, "failcreate=1", "workyield=%d" % (i % 2),
                               "--seed", str(ctx.seed + i), "--spur", "0"]
-                             for i, (cl, fu, pm, md) in enumerate([(1, 2, 1, 0), (1, 3, 1, 1), (1, 2, 2, 0), (2, 2, 1, 0), (2, 1, 1, 1)] * (1 if ctx.quick else 20))], "failcreate")
+                             for i, (cl, fu, pm, md) in enumerate([(1, 2, 1, 0), (1, 3, 1, 1), (1, 2, 2, 0), (2, 2, 1, 0), (2, 2, 1, 1)] * (1 if ctx.quick else 20))], "failcreate")
     # every start() overload (Future<void> / Future<A>, function / member function, 0..5 arguments): arguments and result
     check_runs(ctx, binary, [["clients=1", "futs=1", "poolmax=%d" % pm, "poolcap=4", "mode=5", "workyield=%d" % (i % 2), "--seed", str(ctx.seed + i), "--spur", "0"]
                              for i, pm in enumerate([1, 2, 3, 2] if ctx.quick else [1, 2, 3] * 10)], "overloads")
